@@ -286,6 +286,35 @@ impl RaAdvService {
         }
     }
 
+    /// Verification hook: `build_announcement` with the values it normally reads from netinfo
+    /// (link-layer address, interface MTU, best IPv6 address, default lifetime) supplied by the
+    /// caller, on the interface configuration the real loader produced for `ifname`.
+    #[cfg(feature = "verif")]
+    pub fn verif_build(
+        conf: &crate::config::Config,
+        ifname: &str,
+        ll: Option<[u8; 6]>,
+        if_mtu: Option<u32>,
+        self6: std::net::Ipv6Addr,
+        unspecified_lifetime: std::time::Duration,
+    ) -> Option<icmppkt::RtrAdvertisement> {
+        use config::ConfigValue::*;
+        let intf = conf.ra.interfaces.iter().find(|intf| intf.name == ifname)?;
+        let mtu = match intf.mtu {
+            NotSpecified => if_mtu,
+            Value(v) => Some(v),
+            DontSet => None,
+        };
+        let lifetime = match intf.lifetime {
+            NotSpecified => unspecified_lifetime,
+            Value(v) => v,
+            DontSet => std::time::Duration::from_secs(0),
+        };
+        Some(Self::build_announcement_pure(
+            conf, intf, ll, mtu, self6, lifetime,
+        ))
+    }
+
     async fn build_announcement(
         &self,
         ifidx: u32,
